@@ -438,4 +438,6 @@ def impl_env(hashseed='0'):
     env['PYTHONPATH'] = REPO + os.pathsep + os.path.join(VERIF, 'harness')
     env['PYTHONHASHSEED'] = hashseed
     env['PYTHONDONTWRITEBYTECODE'] = '1'
+    env['VRT_REPO'] = REPO
+    env['VERIF_REPO'] = REPO
     return env
